@@ -101,7 +101,7 @@ theorem OQInv.preserved : Preserved OQInv where
       case oqPut q obj => simp only [execCmd]; split; exact h; exact OQInv.oqPutLoop _ _ _ h
       case recStart kind idx => exact OQInv.setRecording _ _ _ h
       case recStop kind idx => exact OQInv.setRecording _ _ _ h
-  resume w p f sig _ h := by
+  resume w p f sig _ _ h := by
     by_cases hm : (frameMask f).oqs = false
     · exact OQInv.of_eq ((resumeFrame_fp w p f sig).2.2.2.1 hm) h
     · cases f <;> simp [frameMask] at hm
